@@ -150,4 +150,6 @@ def ops_for(rng, p, st, tier):
                 rs = rng.choice(internal)[0]
                 op["root"] = P.key_repr(rng, rs); op["_root"] = rs
             ops.append(op)
+    if getattr(p, "ro", False):
+        ops = [o for o in ops if o["op"] in ("snap", "meta", "transcode", "rawtrav", "ser", "iter")]
     return ops
